@@ -17,10 +17,13 @@ CHECKS = {
         text="Theorems (Props/C20.v) for ALL event lists and all non-zero moduli over exact "
              "rationals: output = reference accumulator reduced once, range [0,M), return value = "
              "output, faulty put/unknown event change nothing, modulo 0 refused; link theorem "
-             "agree->monitor. Tie: the real Counter is run on generated/exhaustive event sequences "
-             "and coqc evaluates the model and the monitor on what was observed.",
-        technique="Coq proof (induction over event lists, Q arithmetic) + differential "
-                  "correspondence evaluated by vm_compute",
+             "agree->monitor. Tie (both kinds): (1) tools/gen_counter.py regenerates a Gallina rendering of "
+             "class Counter from the source on every run and Gen/GenCounterProofs.v re-proves that it is "
+             "the hand-written step/start/create functions; (2) the real Counter is run on "
+             "generated/exhaustive event sequences and coqc evaluates the model and the monitor on what "
+             "was observed.",
+        technique="Coq proof (induction over event lists, Q arithmetic) + model regenerated from the source "
+                  "by a fail-closed translator + differential correspondence evaluated by vm_compute",
         design_ref="DESIGN.md section 6/C20"),
     'C16': dict(
         text="Theorems (Props/C16.v): composition law of the filter pipeline over every split "
